@@ -44,6 +44,9 @@ def explicit_causes(ex, s):
             if not any(e == 'disconnect' for _, e, _ in ex.events_for(s)):
                 continue
         out.append((c['t'], c.get('step'), c['cause'], c.get('det')))
+    for t in getattr(s, 'soft_faults', []):
+        # one write of the server fails: a cause as soon as the server writes (never certain)
+        out.append((t, None, 'ws-fail', None))
     listed = [c.get('call') for c in s.causes]
     for c in ex.world.calls:
         if c.name == 'disconnect' and c.args == () and c not in listed:
@@ -241,7 +244,7 @@ PROFILE = {
     'vanish_at_accept_pct': 15,      # direct WebSocket opens whose peer is gone at the handshake
     'client_flavours': ['plain', 'plain', 'plain', 'plain', 'jsonp', 'gzip', 'jsonp+gzip'],
     'weights': {'open': 3, 'poll': 3, 'post': 5, 'probe_step': 3, 'ws_send': 4, 'ws_close': 2,
-                'ws_fail': 2, 'pong': 1, 'app_send': 2, 'app_disconnect': 4, 'advance': 4,
+                'ws_fail': 2, 'ws_soft_fail': 3, 'pong': 1, 'app_send': 3, 'app_disconnect': 4, 'advance': 4,
                 'fault': 2, 'vanish': 1},
     'max_sessions': 3,
     'packet_kinds': [('msg', 4), ('pong', 1), ('close', 3), ('upgrade', 1), ('bad', 1)],
@@ -297,6 +300,9 @@ def summarize(ex):
         for _, e, a in evs:
             if e == 'disconnect':
                 cls.add('reason-' + str(a))
+    for a in ex.actions:
+        if a['op'] == 'ws_soft_fail':
+            cls.add('transient-write-fault' + ('-' + a['exc'] if a.get('exc') else ''))
     if any(a['op'] == 'fault' for a in ex.actions):
         nt = True
         cls.add('handler-fault')
